@@ -21,6 +21,8 @@ GIT_OK = ("ok:0.4.1", "ok:0.4.1-12-gdeadbee-dirty", "ok:a32a887", "ok:v1.0.0-rc.
 GIT_HANDLED = ("exit128", "exit1", "signal")
 GIT_UNHANDLED = ("enoent", "eacces", "badbytes")
 STRAY = ("README", "meters.hh~", ".meters.hh.swp", "BUILD.bazel", "notes.txt", "backup.d", "#feet.hh#", "units.hh.orig", "old_units.lnk", "seconds.hh.rej", ".DS_Store", "CMakeLists.txt.bak")
+ENCODINGS = ("utf-8", "cp1252", "latin-1", "ascii")
+NON_ASCII_VERSION_IDS = ("0.4.1-M\u00fcller", "v2 \u00b5-build \u2014 \u00c5", "\u7248\u672c-3")
 VERSION_IDS = ("0.4.1", "0.4.1-12-gdeadbee-dirty", "sim build 7", "x")
 OPEN_ERRNOS = ("ENOENT", "ENOENT", "EACCES", "EMFILE", "EIO")
 WRITE_ERRNOS = ("EPIPE", "ENOSPC", "EIO", "EAGAIN")
@@ -139,10 +141,21 @@ def make_plan(tree, seed, i, tier="quick"):
         "api": apisurface.sample(rng),
         "user_macros": rng.random() < 0.3,
     }
+    hashseed = rng.choice(HASHSEEDS)
+    # knobs added later draw from a stream of their own, so that the plans of a seed stay what they
+    # were in every other respect
+    late = rng_for(seed, i, "late-knobs")
+    # the locale's text encoding (open() without encoding=, sys.stdout, argv)
+    env["encoding"] = late.choices(ENCODINGS, (0.82, 0.08, 0.06, 0.04))[0]
+    if sel.get("user_main"):
+        # (a plain C locale cannot read such a file at all: a loud failure, nothing to compare)
+        sel["user_main"]["non_ascii"] = late.random() < 0.5 and env["encoding"] != "ascii"
+    if sel.get("version_id") is not None and late.random() < 0.15:
+        sel["version_id"] = late.choice(NON_ASCII_VERSION_IDS)
     return {
         "seed": seed,
         "run": i,
-        "hashseed": rng.choice(HASHSEEDS),
+        "hashseed": hashseed,
         "selection": sel,
         "env": env,
         "faults": [],
@@ -178,10 +191,7 @@ def faulty_variants(plan, seed, m):
         envo = {}
         handled_only = rng.random() < 0.5
         if handled_only:
-            kinds = []
-            if mode != "unbuffered":
-                kinds.append("short")
-            kinds.append("git")
+            kinds = ["short", "git"]
             k = rng.choice(kinds)
             if k == "short":
                 for _ in range(rng.choice((1, 1, 2, 3))):
@@ -215,7 +225,7 @@ def faulty_variants(plan, seed, m):
                     faults.append({"op": "listdir", "nth": rng.randrange(4), "errno": rng.choice(("EACCES", "ENOENT", "EIO", "ENOTDIR"))})
                 else:
                     envo["git"] = rng.choice(GIT_UNHANDLED)
-            if mode != "unbuffered" and rng.random() < 0.2:
+            if rng.random() < 0.2:
                 faults.append(_write_fault(rng, mode, handled_only=True))
         out.append({"variant": j, "faults": faults, "env": envo})
     return out
@@ -325,8 +335,7 @@ def sweep_variants(plan, twin, tier):
     for at in offsets:
         out.append([{"op": "write", "where": "at_byte", "at_byte": at, "kind": "EPIPE", "persistent": True}])
         out.append([{"op": "write", "where": "at_byte", "at_byte": at, "kind": "EIO", "persistent": False}])
-        if mode != "unbuffered":
-            out.append([{"op": "write", "where": "at_byte", "at_byte": at, "kind": "short"}])
+        out.append([{"op": "write", "where": "at_byte", "at_byte": at, "kind": "short"}])
     # ... and a fine grid over the end of the output (the last text chunk and the one before it)
     grid = (1, 64, 512, 1024, 2048, 3072, 4095, 4096, 4097, 4608, 5120, 6144, 7168, 8191, 8192, 8193, 9216, 12288, 16384) if tier == "quick" else tuple(range(1, 3 * 8192, 128))
     for dist in grid:
@@ -334,8 +343,7 @@ def sweep_variants(plan, twin, tier):
             continue
         out.append([{"op": "write", "where": "from_end", "distance": dist, "kind": "ENOSPC", "persistent": True}])
         out.append([{"op": "write", "where": "from_end", "distance": dist, "kind": "EIO", "persistent": False}])
-        if mode != "unbuffered":
-            out.append([{"op": "write", "where": "from_end", "distance": dist, "kind": "short"}])
+        out.append([{"op": "write", "where": "from_end", "distance": dist, "kind": "short"}])
     k = 24 if tier == "quick" else 200
     for j in range(k):
         pm = (1000 * j + 500) // k
@@ -352,6 +360,9 @@ def sweep_variants(plan, twin, tier):
     for k in sorted(ENVIRON_CHOICES):
         for v in ENVIRON_CHOICES[k]:
             variants.append({"variant": "sweep-environ-%s=%s" % (k, v), "faults": [], "env": {"environ": {k: v}}})
+    for enc in ENCODINGS:
+        if enc != (plan["env"].get("encoding") or "utf-8"):
+            variants.append({"variant": "sweep-encoding-%s" % enc, "faults": [], "env": {"encoding": enc}})
     variants.append({"variant": "sweep-invoked-via-symlink", "faults": [], "env": {"invoked_via_symlink": not plan["env"].get("invoked_via_symlink", False)}})
     variants.append({"variant": "sweep-symlink-farm", "faults": [], "env": {"symlink_farm": not plan["env"].get("symlink_farm", False)}})
     variants.append({"variant": "sweep-strays", "faults": [], "env": {"extra_entries": {UNITS_DIR: list(STRAY), CONSTANTS_DIR: list(STRAY), "au/code/au": list(STRAY[:4])}}})
@@ -561,6 +572,12 @@ def cli_shape_plans(tree, seed, tier):
             {"units": [u1], "constants": [], "io": True, "user_main": {"style": "quoted", "unit": u2}},
             {"units": [], "constants": [], "io": False, "user_main": {"style": "angled", "unit": u3}},
             {"units": [u2], "constants": [c1], "io": True, "user_main": {"style": "mixed", "unit": u2}},
+            {"units": [u3], "constants": [], "io": True, "user_main": {"style": "quoted", "unit": u1, "non_ascii": True}},
+            {"units": [u3], "constants": [], "io": False, "user_main": {"style": "angled", "unit": u1, "non_ascii": True}, "_encoding": "latin-1"},
+            {"units": [u1], "constants": [c1], "io": True, "user_main": {"style": "mixed", "unit": u3, "non_ascii": True}, "_encoding": "cp1252"},
+            {"units": [u2], "constants": [], "io": True, "version_id": NON_ASCII_VERSION_IDS[0], "_encoding": "latin-1"},
+            {"units": [u2], "constants": [], "io": False, "version_id": NON_ASCII_VERSION_IDS[1], "_encoding": "ascii"},
+            {"units": [u1], "constants": [], "io": True, "version_id": NON_ASCII_VERSION_IDS[2]},
         ]
     # a name that exists both as a unit and as a constant (standard_gravity today), asked for as both
     for both in sorted(set(tree.units) & set(tree.constants)):
@@ -584,10 +601,12 @@ def cli_shape_plans(tree, seed, tier):
     for n, sel in enumerate(shapes):
         order = ["units", "constants", "noio", "version"]
         rng.shuffle(order)
-        full = dict({"main_files": [], "version_id": rng.choice(VERSION_IDS + ("id with  two spaces", "v1.0+meta/branch")), "opt_order": order}, **sel)
+        vid = rng.choice(VERSION_IDS + ("id with  two spaces", "v1.0+meta/branch"))
+        full = dict({"main_files": [], "version_id": vid, "opt_order": order}, **sel)
+        enc = full.pop("_encoding", "utf-8")
         plans.append({
             "seed": seed, "run": "cli-%d" % n, "hashseed": HASHSEEDS[n % len(HASHSEEDS)], "selection": full,
-            "env": {"listdir": {}, "listdir_default": _listdir_spec(rng), "extra_entries": {}, "clock": ["2026-09-26T12:00:00"], "git": "ok:cli", "stdout_mode": "block", "stdout_bufsize": 4096, "crlf": False, "git_repo": "tracked"},
+            "env": {"listdir": {}, "listdir_default": _listdir_spec(rng), "extra_entries": {}, "clock": ["2026-09-26T12:00:00"], "git": "ok:cli", "stdout_mode": "block", "stdout_bufsize": 4096, "crlf": False, "git_repo": "tracked", "encoding": enc},
             "faults": [], "toolchain": {"a": list(tcs[n % len(tcs)])}, "probe": {"include_order": rng.randrange(1 << 30), "api": []},
         })
     return plans
